@@ -1,2 +1,3 @@
 //! Independent reference models (oracles). Nothing in here calls the code it judges.
 pub mod geom;
+pub mod gdsflat;
